@@ -717,7 +717,7 @@ class C13(Check):
     @staticmethod
     def inc_values(argv):
         """-I/-isystem values as parse_args keeps them (a missing value stops the parse)."""
-        out = []
+        out, sysd = [], []
         j = 1
         dash = lambda v: len(v) > 1 and v[0] == "-"
         while j < len(argv):
@@ -725,7 +725,7 @@ class C13(Check):
             if t in ("-I", "-isystem"):
                 if j + 1 >= len(argv) or dash(argv[j + 1]):
                     break
-                out.append(argv[j + 1])
+                (out if t == "-I" else sysd).append(argv[j + 1])
                 j += 2
             elif t in ("-D", "-o", "-include"):
                 if j + 1 >= len(argv) or dash(argv[j + 1]):
@@ -736,7 +736,7 @@ class C13(Check):
                 j += 1
             else:
                 j += 1
-        return out
+        return out + sysd          # -I directories first, then -isystem directories
 
     def extra_coverage(self):
         return {"input_distribution": self.stats.get("dist", {}), "gcc_oracle": self.stats.get("oracle", {}),
